@@ -79,6 +79,15 @@ fn gen_c08_dynamic(rng: &mut Rng) -> NetProgram {
         last_link = last_link.max(at);
         prog.late_links.push((at, Link { am: 0, ag: i as u32, bm: 1 + i as u32, bg: 0, flip: rng.chance(1, 2), chan: if rng.chance(5, 6) { Some(tmpl.clone()) } else { None } }));
     }
+    // delayed sends issued while the gate has no peer yet; they leave the gate after the last connect call
+    for i in n_static..k {
+        for (m, g) in [(0usize, i as u32), (1 + i, 0u32)] {
+            if rng.chance(1, 4) {
+                let at = rng.below(SEC);
+                prog.modules[m].beats.push(Beat { at_ns: at, acts: vec![Act::Send { gate: g, delay_ns: last_link + window + 50 * SEC - at + rng.below(SEC), body: rng.below(6) as u8 }] });
+            }
+        }
+    }
     // phase 3: traffic over every link, both directions, well after the last connect call
     let mut t = last_link + window + 100 * SEC;
     for i in 0..k {
